@@ -15,8 +15,8 @@
    `absorb_okb dw op = true` (skipping the whitespace that And(op + ..) skips does not change what op matches),
    `and_items last = [last]` (lastExpr is never a bare And: it is a MatchFirst or a Forward). *)
 From Coq Require Import List ZArith NArith Bool.
-From PP Require Import Model.Str Model.Results Model.Prog Model.Core Model.Peg Model.Infix.
-From PP Require Import Proofs.PegEquiv Proofs.EqDec Proofs.InfixProofs Gen.GenInfix.
+From PP Require Import Model.Str Model.Results Model.Prog Model.Core Model.Peg Model.Infix Model.Climb.
+From PP Require Import Proofs.PegEquiv Proofs.EqDec Proofs.InfixProofs Proofs.ClimbProofs Gen.GenInfix.
 Import ListNotations.
 
 (* ---- tie to the source: the (look-ahead sequence, grouped sequence) pair of each of the eight arity x associativity
@@ -169,7 +169,7 @@ Example C16_instance :
   peg (fst ex_g) ex_s 60 (snd ex_g) 0 = POk 29 [ex_tree] /\
   peg (fst ex_r) ex_s 60 (snd ex_r) 0 = POk 29 [ex_tree] /\
   proj (parse (step (fst ex_g)) 60 (mkargs (snd ex_g) ex_s 0 true true)) = Some (POk 29 [ex_tree]) /\
-  climb_all ex_itable ex_toks = Some ex_tree /\
+  Infix.climb_all ex_itable ex_toks = Some ex_tree /\
   eval_tree 20 ex_tree = Some 20%Z.
 Proof. vm_compute. repeat split. Qed.
 
@@ -202,9 +202,135 @@ Theorem C16_climb_overlap_refuted :
   exists (table : list level) (itab : itable) (s : str) (ts : list itok),
     let g := infix_elab dws ex_ids ex_base table ex_lpar ex_rpar in
     table_okb dws (start_skip ex_base ex_lpar) table = true /\ env_in_class (fst g) = true /\ in_class (fst g) (snd g) = true /\
-    climb_all itab ts = Some (TList [TStr [49%N]; TStr [33%N; 61%N]; TStr [50%N]]) /\
+    Infix.climb_all itab ts = Some (TList [TStr [49%N]; TStr [33%N; 61%N]; TStr [50%N]]) /\
     peg (fst g) s 60 (snd g) 0 = POk 3 [TList [TStr [49%N]; TStr [33%N]]] /\ length s = 6.
 Proof.
   exists bad_table, [(IPostfix, [33%N]); (IBinL, [33;61]%N)], [49;32;33;61;32;50]%N, [n_ 49; IOp [33;61]%N; n_ 50].
   vm_compute. repeat split.
 Qed.
+
+(* ------------------------------------------------------------------------------------------------------------- *)
+(* PRECEDENCE CLIMBING.  Model/Climb.v: `Climb.climb ctab ts` is precedence climbing over an already TOKENIZED input     *)
+(* (tokens TOperand x | TOp o; the table `ctab` lists, per level, the kind and the operator spellings; the precedence     *)
+(* parameter is the list of levels still usable: `prec + 1` for the operands of a left-associative operator, `prec` on   *)
+(* the right of a right-associative one); result = (tree in pyparsing's convention, remaining tokens).  `render ts` is    *)
+(* the input string (tokens joined by single spaces).  `ctable_of dw table = Some ctab` reads the element table as a      *)
+(* token table (operators: Literal or MatchFirst of Literals; levels: unary prefix / postfix, binary left / right,        *)
+(* juxtaposition right); `base_chars dw base = Some cs`: the operand is Word(cs); `par_spelling`: a Literal or            *)
+(* Suppress(Literal) parenthesis.  `no_overlapb dw cs lp ctab`: the space is a white character, no operand character is;  *)
+(* every spelling is non-empty, white-free and does not start with an operand character; the opening parenthesis is not  *)
+(* a prefix of an operator; NO OPERATOR SPELLING IS A PROPER PREFIX OF ANOTHER (the F-16 family).                         *)
+(* `_partial`: LJuxL and the ternary levels are not covered (ctable_of = None); the tokens contain no parentheses.        *)
+(* ------------------------------------------------------------------------------------------------------------- *)
+Theorem C16_climb_partial : forall dw ids base table lpar rpar cs ctab lp ts,
+  base_chars dw base = Some cs -> ctable_of dw table = Some ctab -> par_spelling dw lpar = Some lp ->
+  not_plain_and rpar = true -> no_overlapb dw cs lp ctab = true -> forallb (token_okb cs ctab) ts = true ->
+  let G := fst (infix_ref dw ids base table lpar rpar) in
+  let root := snd (infix_ref dw ids base table lpar rpar) in
+  match Climb.climb ctab ts with
+  | Some (t, r) => pegR G (render ts) root 0 (POk (length (render (firstn (length ts - length r) ts))) [t])
+  | None => pegR G (render ts) root 0 PFail
+  end.
+Proof. exact climb_partial. Qed.
+
+(* the whole input is read, with tree t, iff climbing uses every token and builds t *)
+Theorem C16_climb_all_partial : forall dw ids base table lpar rpar cs ctab lp ts,
+  base_chars dw base = Some cs -> ctable_of dw table = Some ctab -> par_spelling dw lpar = Some lp ->
+  not_plain_and rpar = true -> no_overlapb dw cs lp ctab = true -> forallb (token_okb cs ctab) ts = true ->
+  forall t, pegR (fst (infix_ref dw ids base table lpar rpar)) (render ts) (snd (infix_ref dw ids base table lpar rpar)) 0
+                 (POk (length (render ts)) [t]) <->
+            Climb.climb_all ctab ts = Some t.
+Proof. exact climb_all_partial. Qed.
+
+(* the same for the grammar that infix_notation BUILDS (through C16_table_equiv) *)
+Theorem C16_climb_elab_partial : forall dw ids base table lpar rpar cs ctab lp ts,
+  table_okb dw (start_skip base lpar) table = true ->
+  base_chars dw base = Some cs -> ctable_of dw table = Some ctab -> par_spelling dw lpar = Some lp ->
+  not_plain_and rpar = true -> no_overlapb dw cs lp ctab = true -> forallb (token_okb cs ctab) ts = true ->
+  let G := fst (infix_elab dw ids base table lpar rpar) in
+  let root := snd (infix_elab dw ids base table lpar rpar) in
+  match Climb.climb ctab ts with
+  | Some (t, r) => pegR G (render ts) root 0 (POk (length (render (firstn (length ts - length r) ts))) [t])
+  | None => pegR G (render ts) root 0 PFail
+  end.
+Proof. exact climb_partial_elab. Qed.
+
+(* the binary-only statement asked for first (a special case: every level binary) *)
+Definition binary_level (lv : level) : bool := match lv with LBinL _ _ | LBinR _ _ => true | _ => false end.
+Theorem C16_climb_binary_partial : forall dw ids base table lpar rpar cs ctab lp ts,
+  forallb binary_level table = true ->
+  base_chars dw base = Some cs -> ctable_of dw table = Some ctab -> par_spelling dw lpar = Some lp ->
+  not_plain_and rpar = true -> no_overlapb dw cs lp ctab = true -> forallb (token_okb cs ctab) ts = true ->
+  match Climb.climb ctab ts with
+  | Some (t, r) => pegR (fst (infix_ref dw ids base table lpar rpar)) (render ts) (snd (infix_ref dw ids base table lpar rpar)) 0
+                        (POk (length (render (firstn (length ts - length r) ts))) [t])
+  | None => pegR (fst (infix_ref dw ids base table lpar rpar)) (render ts) (snd (infix_ref dw ids base table lpar rpar)) 0 PFail
+  end.
+Proof. exact (fun dw ids base table lpar rpar cs ctab lp ts _ => climb_partial dw ids base table lpar rpar cs ctab lp ts). Qed.
+
+(* the fuel of `climb` suffices: it never answers None for lack of fuel *)
+Theorem C16_climb_total : forall f lv ts, length lv + length ts < f -> climb_f f lv ts <> COut.
+Proof. exact climb_total. Qed.
+
+(* ---- instance THROUGH the theorem: 4-level arithmetic, `^` right, unary `-`, `* /` left, `+ -` left, on
+        "1 + 2 * - 3 ^ 2 ^ 2 - 4".  (With the spelling `**` for the power operator the table is OUTSIDE no_overlapb: `*` is
+        a proper prefix of `**`; that table is only checked by computation below.) ---- *)
+Definition ma (id : nat) : attrs :=
+  {| nid := id; rsname := None; modalr := true; aslist := false; skipws := true; white := dws; callpre := false;
+     mayidx := true; custom := false; hasmsg := true; acts := []; calltry := false; slen := 3 |}.
+Definition mfop (id : nat) (es : list expr) : expr := Nary (ma id) [] NMatchFirst es.
+Definition ar_table (pow : str) : list level :=
+  [LBinR (lit 110 pow) []; LPrefix (lit 111 [45%N]) [];
+   LBinL (mfop 112 [lit 113 [42%N]; lit 114 [47%N]]) []; LBinL (mfop 115 [lit 116 [43%N]; lit 117 [45%N]]) []].
+Definition ar_ctab (pow : str) : ctable := [CBinR [pow]; CPrefix [[45%N]]; CBinL [[42%N]; [47%N]]; CBinL [[43%N]; [45%N]]].
+Definition d_ (c : N) := TOperand [c].
+Definition ar_toks (pow : str) : list token :=
+  [d_ 49; TOp [43%N]; d_ 50; TOp [42%N]; TOp [45%N]; d_ 51; TOp pow; d_ 50; TOp pow; d_ 50; TOp [45%N]; d_ 52]%N.
+Definition ar_tree (pow : str) : tok :=
+  TList [TStr [49%N]; TStr [43%N];
+         TList [TStr [50%N]; TStr [42%N];
+                TList [TStr [45%N]; TList [TStr [51%N]; TStr pow; TList [TStr [50%N]; TStr pow; TStr [50%N]]]]];
+         TStr [45%N]; TStr [52%N]].
+Definition caret : str := [94%N].
+Definition starstar : str := [42%N; 42%N].
+
+Example C16_climb_arith_hyps :
+  table_okb dws (start_skip ex_base ex_lpar) (ar_table caret) = true /\
+  base_chars dws ex_base = Some digits /\ ctable_of dws (ar_table caret) = Some (ar_ctab caret) /\
+  par_spelling dws ex_lpar = Some [40%N] /\ not_plain_and ex_rpar = true /\
+  no_overlapb dws digits [40%N] (ar_ctab caret) = true /\ forallb (token_okb digits (ar_ctab caret)) (ar_toks caret) = true /\
+  Climb.climb_all (ar_ctab caret) (ar_toks caret) = Some (ar_tree caret) /\
+  Climb.climb (ar_ctab caret) (ar_toks caret) = Some (ar_tree caret, []).
+Proof. vm_compute. repeat split. Qed.
+
+(* reference grammar, by the theorem *)
+Example C16_climb_arith_ref :
+  pegR (fst (infix_ref dws ex_ids ex_base (ar_table caret) ex_lpar ex_rpar)) (render (ar_toks caret))
+       (snd (infix_ref dws ex_ids ex_base (ar_table caret) ex_lpar ex_rpar)) 0
+       (POk (length (render (ar_toks caret))) [ar_tree caret]).
+Proof.
+  destruct C16_climb_arith_hyps as (_ & Hb & Ht & Hp & Hr & Hno & Htk & Hall & _).
+  exact (proj2 (C16_climb_all_partial dws ex_ids ex_base (ar_table caret) ex_lpar ex_rpar digits (ar_ctab caret) [40%N]
+                  (ar_toks caret) Hb Ht Hp Hr Hno Htk (ar_tree caret)) Hall).
+Qed.
+
+(* the grammar infix_notation builds, by the theorem composed with C16_table_equiv *)
+Example C16_climb_arith_elab :
+  pegR (fst (infix_elab dws ex_ids ex_base (ar_table caret) ex_lpar ex_rpar)) (render (ar_toks caret))
+       (snd (infix_elab dws ex_ids ex_base (ar_table caret) ex_lpar ex_rpar)) 0
+       (POk (length (render (ar_toks caret))) [ar_tree caret]).
+Proof.
+  destruct C16_climb_arith_hyps as (Hok & Hb & Ht & Hp & Hr & Hno & Htk & _ & Hc).
+  pose proof (C16_climb_elab_partial dws ex_ids ex_base (ar_table caret) ex_lpar ex_rpar digits (ar_ctab caret) [40%N]
+                (ar_toks caret) Hok Hb Ht Hp Hr Hno Htk) as H.
+  cbv zeta in H. rewrite Hc in H. exact H.
+Qed.
+
+(* `**` instead of `^`: outside the hypothesis (`*` is a proper prefix of `**`), agreement on this input BY COMPUTATION only *)
+Example C16_climb_arith_starstar_computed :
+  no_overlapb dws digits [40%N] (ar_ctab starstar) = false /\
+  Climb.climb_all (ar_ctab starstar) (ar_toks starstar) = Some (ar_tree starstar) /\
+  peg (fst (infix_ref dws ex_ids ex_base (ar_table starstar) ex_lpar ex_rpar)) (render (ar_toks starstar)) 60
+      (snd (infix_ref dws ex_ids ex_base (ar_table starstar) ex_lpar ex_rpar)) 0
+    = POk (length (render (ar_toks starstar))) [ar_tree starstar].
+Proof. vm_compute. repeat split. Qed.
